@@ -3,6 +3,7 @@ import itertools
 
 import common
 import c03_reader
+import c03_reset
 import preds
 from e2e import canon, concat_parts, exec_expr, try_, _short
 
@@ -354,6 +355,10 @@ def run(run):
     ]
     run.rule = ("exhaustive: all And/Or predicate trees up to 4 (quick) / 5 (thorough) leaves over 4 atoms + factoring-shaped random trees: real rewrite_filters vs proved model; "
                 "scenario grid: operator kind crossed x predicate x consumer x nulls (NaN / pd.NA) x partitions vs pandas; join table how x side x suffixes; "
+                "index resets: label layouts of the frame under reset_index (data columns called index / level_0 / '' / integers x index name None / string / '' / 0 / "
+                "index / level_0, DataFrames and Series) x index values (unique, permuted, duplicates, floats, strings, timestamps, missing) x data dtypes with NaN / pd.NA / None x "
+                "histories of the frame x drop x operators between the reset and the filter x predicates on every column of the reset frame (former index and data) x consumers "
+                "vs pandas evaluating the predicate on the computed unfiltered frame; "
                 "reader hand-over: parquet (both readers, several file / row-group layouts, NaN / None / pd.NA, user filters) x And/Or/Not shapes up to 3 (quick) / 4 (thorough) leaves x "
                 "every assignment of {reader-expressible comparison, other term} to the leaves x 14 surroundings of the filter vs pandas on the data read in full (and the unoptimized plan); "
                 "non-trivial = factoring fired / scenario executed / the leaves take all valuations on the data")
@@ -364,4 +369,5 @@ def run(run):
     join_table(run)
     targeted(run)
     cast_grid(run)
+    c03_reset.reset_sweep(run)
     c03_reader.reader_sweep(run)
